@@ -32,6 +32,18 @@ def gen_cfgs(rng, n):
         cfgs.append({"id": str(i), "u": rng.choice(["simple", "table"]), "names": names, "origs": origs, "table": table,
                      "rc": rng.choice(["negative", "first", "inside", "last", "beyond", "far", "illtyped", "inside", "last"]),
                      "bulk": rng.random() < 0.4})
+        if i % 5 == 0 and k >= 3:
+            # same listing order in every process: one stream under two names, or a refusal half-way through update_seeds
+            c = dict(cfgs[-1], id=f"{i}f", fixed_order=True, bulk=True)
+            if i % 10 == 0:
+                c["alias"] = [(names[0], names[-1])]
+                c["u"] = "simple"
+                c["rc"] = "inside"
+            else:
+                c["u"] = "table"
+                c["table"] = {names[1]: ["4", "5", "6"]}     # r = 3 is beyond names[1]'s list: refused for it only, half-way
+                c["rc"] = "beyond"
+            cfgs.append(c)
     return cfgs
 
 
@@ -45,7 +57,8 @@ def run_children(cfgs, hashseeds, rng):
             for c in cfgs:
                 c2 = dict(c)
                 names = list(c["names"])
-                rng.shuffle(names)          # listing order differs between processes
+                if not c.get("fixed_order"):
+                    rng.shuffle(names)      # listing order differs between processes
                 c2["names"] = names
                 mine.append(c2)
             f = os.path.join(d, f"cfg{ci}.json")
